@@ -1,4 +1,88 @@
-(* theorems for C07 are being added (see SMP/) *)
+(* C07 - Transport takes the configured travel time and never moves an unready job (one-step exactness,
+   AGV events fire exactly when due by the clock invariant of C12). *)
 From Coq Require Import List ZArith Bool.
-Theorem C07_placeholder : True. Proof. exact I. Qed.
-Print Assumptions C07_placeholder.
+From JSL Require Import Base.Res Base.ListX SM.Types SM.Util SM.Handler SM.Step SM.Inv
+  SMP.Post SMP.PostApply SMP.Offers SMP.Clock SMP.ClockMain.
+Import ListNotations.
+
+(* dispatch: the AGV reaches the pickup point exactly travel(where it stands -> where the job lies)
+   later, the route (pickup buffer, destination) is fixed, the job is claimed. Direction of the lookup:
+   travel_lookup FROM TO. *)
+Theorem C07_dispatch_exact :
+  forall sigma i x tr t ts x',
+    tr_comp tr = CT t -> nth_error (s_trans x) t = Some ts -> t_st ts = TIdle ->
+    apply_transition sigma i x tr = Ok x' ->
+    exists j p jb target c ttp,
+      tr_job tr = Some j /\ t_loc ts = LAt p /\ nth_error (s_jobs x) j = Some jb /\ dest_idle i jb = Ok target
+      /\ travel_lookup (i_travel i) p (place_of_bid (j_loc jb)) = Some c /\ tc_read (s_sto x) c = Ok ttp
+      /\ nth_error (s_trans x') t =
+           Some (mkTransport TPickup (OAt (s_now x + ttp)%Z) (t_buf ts) (LRoute p (j_loc jb) target) (Some j) (t_out ts))
+      /\ s_now x' = s_now x /\ s_jobs x' = s_jobs x /\ s_machs x' = s_machs x /\ s_bufs x' = s_bufs x.
+Proof.
+  intros sigma i x tr t ts x' Hc Ht Hst H.
+  destruct (apply_transport sigma i x tr t ts x' Hc Ht H) as [[_ [_ Hh]]|[[E _]|[[[E|E] _]|[[[E|E] _]|[[E _]|[E _]]]]]]; try congruence.
+  eapply post_dispatch; eauto.
+Qed.
+Print Assumptions C07_dispatch_exact.
+
+(* pickup: either the job is not at the position its buffer's discipline releases and the AGV keeps
+   waiting, or the job is taken and arrives exactly travel(place of its buffer -> destination) later *)
+Theorem C07_pickup_exact :
+  forall sigma i x tr t ts x',
+    nth_error (s_trans x) t = Some ts -> h_t_to_transit sigma i x tr t ts = Ok x' ->
+    exists j jb sb sc,
+      tr_job tr = Some j /\ nth_error (s_jobs x) j = Some jb /\ get_buf x (j_loc jb) = Some sb
+      /\ get_bcfg i (j_loc jb) = Some sc /\
+      ((exists p, index_of j (b_store sb) = Some p /\ is_correct_position (Some p) (length (b_store sb)) (bc_type sc) = Ok false
+                  /\ h_t_waiting_waiting i x tr t ts = Ok x')
+       \/
+       (exists dst c trv,
+          (forall p, index_of j (b_store sb) = Some p -> is_correct_position (Some p) (length (b_store sb)) (bc_type sc) = Ok true)
+          /\ dest_not_done i jb = Ok dst
+          /\ travel_lookup (i_travel i) (place_of_bid (j_loc jb)) dst = Some c /\ tc_read (s_sto x') c = Ok trv
+          /\ (exists ts', nth_error (s_trans x') t = Some ts' /\ t_st ts' = TTransit /\ t_occ ts' = OAt (s_now x + trv)%Z
+                /\ b_store (t_buf ts') = b_store (t_buf ts) ++ [j] /\ t_loc ts' = t_loc ts /\ t_job ts' = t_job ts)
+          /\ (exists sb', get_buf x' (j_loc jb) = Some sb' /\ b_store sb' = remove_nat j (b_store sb))
+          /\ nth_error (s_jobs x') j = Some (set_j_loc jb (BAgv t)) /\ s_now x' = s_now x)).
+Proof. exact post_to_transit. Qed.
+Print Assumptions C07_pickup_exact.
+
+(* delivery: the job joins the back of the destination's pre-buffer (or the output buffer), the AGV
+   stands at the destination and drops its claim *)
+Theorem C07_delivery_exact :
+  forall sigma i x tr t ts x',
+    nth_error (s_trans x) t = Some ts -> h_t_transit_outage sigma i x tr t ts = Ok x' ->
+    exists j jb cur src dst ac B outs sto' occ_for,
+      tr_job tr = Some j /\ nth_error (s_jobs x) j = Some jb /\ t_loc ts = LRoute cur src dst
+      /\ nth_error (i_trans i) t = Some ac
+      /\ B = (match dst with PM m => BPre m | PB n => BStd n | PT k => BAgv k end)
+      /\ new_outage_states sigma (s_now x) (s_sto x) (ac_out ac) (t_out ts) = Ok (outs, sto')
+      /\ occupied_time outs = Ok occ_for
+      /\ (exists ts', nth_error (s_trans x') t = Some ts' /\ t_st ts' = TOutage /\ t_occ ts' = OAt (s_now x + occ_for)%Z
+            /\ t_loc ts' = LAt dst /\ t_job ts' = None /\ t_out ts' = outs
+            /\ b_store (t_buf ts') = remove_nat j (b_store (t_buf ts)))
+      /\ (forall b, get_buf x B = Some b -> exists b', get_buf x' B = Some b' /\ b_store b' = b_store b ++ [j])
+      /\ nth_error (s_jobs x') j = Some (set_j_loc jb B) /\ s_now x' = s_now x.
+Proof. exact post_deliver. Qed.
+Print Assumptions C07_delivery_exact.
+
+(* AGV events fire exactly when due: created only when occupied_till <= now (timed_transport), and the
+   clock invariant says now <= occupied_till for every non-idle AGV *)
+Theorem C07_agv_events_exact :
+  forall i x t ts tr z,
+    clock_b x = true -> nth_error (s_trans x) t = Some ts -> t_st ts <> TIdle -> t_occ ts = OAt z ->
+    timed_transport i x t ts = Ok [tr] -> z = s_now x.
+Proof.
+  intros i x t ts tr z Hc Ht Hs Ho H. apply NO_iff_clock_b in Hc.
+  pose proof (timed_transport_due i x t ts tr z Ho H) as H1.
+  destruct (no_trans _ Hc _ _ Ht) as [A _]. specialize (A Hs). rewrite Ho in A. apply Z.le_antisymm; auto.
+Qed.
+Print Assumptions C07_agv_events_exact.
+
+(* only AGVs that are idle and jobs no AGV has claimed are offered for dispatch *)
+Theorem C07_dispatch_offers :
+  forall i x l tr, get_possible_transport_transition i x = Ok l -> In tr l ->
+    exists t ts j jb, tr = mkTr (CT t) (NT TWorking) (Some j)
+      /\ nth_error (s_trans x) t = Some ts /\ t_st ts = TIdle /\ nth_error (s_jobs x) j = Some jb
+      /\ ~ In j (claims x) /\ (i_early i = false -> is_ready i x j jb = Ok true).
+Proof. exact transport_offers_spec. Qed.
